@@ -95,8 +95,9 @@ hll_sketch_alloc<A>::hll_sketch_alloc(HllSketchImpl<A>* that) :
 
 template<typename A>
 hll_sketch_alloc<A>& hll_sketch_alloc<A>::operator=(const hll_sketch_alloc<A>& other) {
+  HllSketchImpl<A>* copy = other.sketch_impl->copy(); // copy first: other may be *this
   sketch_impl->get_deleter()(sketch_impl);
-  sketch_impl = other.sketch_impl->copy();
+  sketch_impl = copy;
   return *this;
 }
 
